@@ -12,6 +12,7 @@ import (
 	"github.com/orda-io/orda/client/pkg/context"
 	"github.com/orda-io/orda/client/pkg/errors"
 	"github.com/orda-io/orda/client/pkg/iface"
+	ordalog "github.com/orda-io/orda/client/pkg/log"
 	"github.com/orda-io/orda/client/pkg/model"
 	"github.com/orda-io/orda/client/pkg/orda"
 	"github.com/orda-io/orda/client/pkg/simhook"
@@ -99,6 +100,9 @@ func init() {
 		l.SetLevel(logrus.PanicLevel)
 		l.SetReportCaller(false)
 	}
+	// the package-level logger was created before the hook could be set
+	ordalog.Logger.Logger.SetLevel(logrus.PanicLevel)
+	ordalog.Logger.Logger.SetReportCaller(false)
 }
 
 func newWorld(t *testing.T, seed uint64) *world {
